@@ -35,7 +35,10 @@ extern "C" void h_circular_segments_default() {
 
 // sind / cosd are exact at multiples of 90 degrees
 extern "C" void h_sind_exact() {
-  int k = vf_range(-1000000, 1000000);
+#ifndef VF_KMAX
+#define VF_KMAX 1000000
+#endif
+  int k = vf_range(-VF_KMAX, VF_KMAX);
   double x = 90.0 * k;
   double s = sind(x), c = cosd(x);
   int m = ((k % 4) + 4) % 4;
